@@ -39,6 +39,12 @@ def plan(tier, seed):
                         if pr >= len(pairs(pn)):
                             continue
                         scs.append(dict(cell=ci, pat=pn, subpose=4, ncopies=nc, place=0, pair=pr, replace_all=0, atol=0.05, fraction=f, noise=0))
+    # tolerance sub-product: an exact copy plus a near-miss copy (one atom displaced by 0.12 A) searched with the default and a wide tolerance
+    for ci in range(len(G.CELLS)):
+        for pn in ['CN', 'CNO', 'BF3', 'CHHB']:
+            for at in (0.05, 0.2, 0.3):
+                for pr in (0, 2, 4):
+                    scs.append(dict(cell=ci, pat=pn, subpose=4, place=P(0.97, 0.03, 0.97), pair=pr, replace_all=0, atol=at, build_atol=0.02, decoy='nearmiss', fraction=1.0, noise=0))
     return dict(scenarios=scs, exhaustive=True, chunk=20,
                 menus=dict(cells=[c[0] for c in G.CELLS], patterns=PATS + ([] if q else ['CH4', 'CHFClBr']), pairs=PAIR_NAMES, replace_all=[False, True], fractions=FRACTIONS, copies=[1, 2, 3, 4],
                            draws='every random.sample subset, every tie-break / vector answer within the bound'),
@@ -131,6 +137,13 @@ def run(sc, ctx):
             out['violations'].append(viol('no-result', 'exc:' + exc_sig(err), 'replace_pattern_in_structure raised %r [pair=%s, draws %r]' % (err[0], c['pair'], tuple(answers)), sc, case=case, tb=err[1]))
             continue
         n = check_execution(c, sc, answers, res, nm, rec, out, case)
+        if rec is not None and not any(answers):
+            # "only found matches are replaced": the matches used must be those a search with the same tolerance reports
+            (direct, derr), _ = explorer(ctx).run(lambda: call(find_pattern_in_structure, c['s'], c['sp'], atol=sc['atol']), ())
+            out['evals'] += 1
+            if derr or sorted(tuple(sorted(int(i) for i in t)) for t in direct) != sorted(tuple(sorted(int(i) for i in t)) for t in rec[0]):
+                out['violations'].append(viol('matches', 'differs-from-search', 'the replacement worked on matches %r, a search with the same tolerance %g reports %r [pair=%s]' % (
+                    [tuple(int(i) for i in t) for t in rec[0]], sc['atol'], derr[0] if derr else [tuple(int(i) for i in t) for t in direct], c['pair']), sc, case=case))
         ns.add(n)
         if [raw_state(c['s']), raw_state(c['sp']), raw_state(c['rp'])] != before:
             out['violations'].append(viol('inputs-unmodified', 'modified', 'the call modified one of its input objects [pair=%s]' % c['pair'], sc, case=case))
